@@ -38,7 +38,7 @@ RELABEL = {
     'char_rule_single': {'C10': ['C10'], '*': ['C14', 'C01']}, 'include_diamond': {'*': ['C13']}, 'include_boxed': {'*': ['C13']},
     'memo_include': {'*': ['C05', 'C13', 'C14']}, 'leftrec_unnamed': {'C10': ['C10'], '*': ['C07']}, 'leftrec_optional_tail': {'C10': ['C10'], '*': ['C07', 'C02']},
     'ws_lookahead_tail': {'C09': ['C09', 'C08'], '*': ['C08']}, 'memo_position_two_entries': {'C09': ['C09', 'C05'], '*': ['C05']},
-    'ws_choice_then_char': {'C02': ['C02', 'C08'], '*': ['C08']}, 'memo_lookahead_reuse': {'C10': ['C10'], '*': ['C05']},
+    'ws_choice_then_char': {'C02': ['C02', 'C08'], '*': ['C08']}, 'memo_lookahead_reuse': {'C10': ['C10'], '*': ['C05']}, 'extern_noskip_blanks': {'C10': ['C10'], '*': ['C14']}, 'memo_deep': {'C10': ['C10'], '*': ['C01']},
     'enum_field': {'*': ['C02']}, 'boxed': {'*': ['C02']}, 'box_merge': {'*': ['C02']}, 'override_simple': {'*': ['C02']}, 'override_enum': {'*': ['C02']},
 }
 # driver-level verdicts (reject / compile / same_as) and compile errors are attributed to:
@@ -365,6 +365,22 @@ def t_part(ctx, prop):
         dfuts = {n: ex.submit(run_diff, T, n, tw, sm.bound_for(SCHEMAS[n], cap, extra=xtra), DIFF[prop][1]) for n, tw in diff_jobs.items()}
         for n, f in futs.items(): results[n] = f.result()
         for n, f in dfuts.items(): diffs[n] = f.result()
+    if prop in DIFF:
+        for n, tw in diff_jobs.items():
+            if not SCHEMAS[n].deep: continue
+            o, m, c = SCHEMAS[n].deep
+            p = subprocess.run([T['harness'], 'deep', n, tw, o, m, c], capture_output=True, text=True, timeout=1800)
+            bad = re.findall(r'^T-DEEP-(?:DIFF|REJECT) .*$', p.stdout, re.M)
+            if 'T-DEEP-PASS' in p.stdout:
+                out.setdefault('deep_input_family', []).append({'schema': n, 'twin': tw, 'inputs': '%s^k %s %s^k for k in 1..2000 (17 depths)' % (o, m, c), 'result': 'both parsers accept every text and agree'})
+            elif bad:
+                k = re.search(r' k=(\d+)', bad[0])
+                rp = ctx.replay_path('T-%s-deep' % n)
+                out['violations'].append({'id': 'T:%s:deep' % n, 'layer': 'T', 'schema': n, 'twin': tw, 'deep': [o, m, c, int(k.group(1)) if k else 0], 'label': prop, 'replay': rp, 'no_failing_input': False,
+                                          'assertion': 'deep-input family', 'grammar': open(_ebnf_path(ctx, T, n)).read(), 'twin_grammar': open(_ebnf_path(ctx, T, tw)).read(),
+                                          'what': 'schema %s [%s] on the nested text %s^k %s %s^k: %s' % (n, SCHEMAS[n].note, o, m, c, bad[0][:300])})
+            else:
+                out['inconclusive'].append('deep-input family of %s did not run: %s' % (n, (p.stdout + p.stderr)[-300:]))
     for n, d in diffs.items():
         s = SCHEMAS[n]
         if d['status'] == 'error':
